@@ -72,7 +72,7 @@ var (
 	verifAttrVals    = []string{"", "x", "text/html", "application/xhtml+xml", "TEXT/HTML", "hidden", "HIDDEN", "a b", "a>b", "a<b", "a&amp;b", "&lt;", "&#x22;", "&quot", "&copy=1", "&notit;", "'", "\"", "`", "=", "/", "a\rb", "a\r\nb", "\x00", "é", "\xff", "</script>", "-->", "http://www.w3.org/1999/xlink"}
 	verifTexts       = []string{"x", "hello world", " ", "\n", "\r", "\r\n", "\t", "\f", "\x00", "a\x00b", "&", "&amp;", "&lt;", "&gt", "&#", "&#x", "&#x41;", "&#65", "&#0;", "&#xD800;", "&#1114112;", "&#x80;", "&#13;",
 		"&notit;", "&notin;", "&amp;amp;", "&AElig", "&NotEqualTilde;", "&nosuch;", "<", ">", "<<", "< ", "<>", "</", "</>", "<!", "<?", "<!-", "<!--", "-->", "--!>", "]]>", "<![CDATA[", "λ", "€", "𝄞", "\xff", "\xc3", "\xe2\x82", "\xed\xa0\x80", "\ufeff", "\ufffd", "a<b", "1<2>3", "'", "\"", "`", "=", "/"}
-	verifComments = []string{"<!---->", "<!-->", "<!--->", "<!-- x -->", "<!--x--!>", "<!-- -- -->", "<!--<!---->", "<!-- <!-- -->", "<!--x-", "<!--x--", "<!--x--!", "<!--", "<!-", "<!x>", "<!>", "<?xml version=\"1.0\"?>", "<?>", "<?", "</ x>", "</>", "</\x00>", "<!--a&b>c-->", "<!---!>-->", "<!--->-->", "<!--!>-->", "<!--\x00-->", "<!--\r\n-->"}
+	verifComments = []string{"<!---->", "<!-->", "<!--->", "<!-- x -->", "<!--x--!>", "<!-- -- -->", "<!--<!---->", "<!-- <!-- -->", "<!--x-", "<!--x--", "<!--x--!", "<!--", "<!-", "<!x>", "<!>", "<?xml version=\"1.0\"?>", "<?>", "<?", "</ x>", "</>", "</\x00>", "<!--a&b>c-->", "<!---!>-->", "<!--->-->", "<!--!>-->", "<!--\x00-->", "<!--\r\n-->", "<!----!&gt;-->", "<!---&gt;-->", "<!--&gt;-->", "<!--x--!&gt;y-->", "<!--!&gt;-->", "<!-- --&gt; -->", "<!--&#13;-->", "<!--a&amp;b-->"}
 	verifDoctypes = []string{"<!DOCTYPE html>", "<!doctype html>", "<!DOCTYPE>", "<!DOCTYPE", "<!DOCTYP", "<!DOCTYPE ", "<!DOCTYPE html PUBLIC \"-//W3C//DTD HTML 4.01//EN\" \"http://www.w3.org/TR/html4/strict.dtd\">",
 		"<!DOCTYPE html SYSTEM 'about:legacy-compat'>", "<!DOCTYPE html PUBLIC \"a'b\" 'c\"d'>", "<!DOCTYPE html PUBLIC '-//W3C//DTD XHTML 1.0 Frameset//EN'>", "<!DOCTYPE x y z>", "<!DOCTYPE\x00html>", "<!DOCTYPE html PUBLIC \"a>b\">", "<!DOCTYPE \r\nhtml\r>", "<!DOCTYPE html PUBLIC \"-//IETF//DTD HTML 2.0//EN\">", "<!DOCTYPE a&amp;b>"}
 	verifCDATA   = []string{"<![CDATA[x]]>", "<![CDATA[]]>", "<![CDATA[ ]] ]]>", "<![CDATA[<b>]]>", "<![CDATA[", "<![CDATA", "<![CDATA[x]]", "<![cdata[x]]>", "<![CDATA[\x00]]>", "<![CDATA[a]]]>", "<![CDATA[&amp;]]>"}
@@ -250,7 +250,7 @@ func (g *verifGen) piece(sb *bytes.Buffer, open *[]string) {
 	case 16:
 		sb.WriteString("<!--")
 		for k := g.rng.IntN(4); k > 0; k-- {
-			sb.WriteString([]string{"-", "--", "!", ">", "->", "-->x", "--!", "<!--", "x", "&", "\x00", "\r"}[g.rng.IntN(12)])
+			sb.WriteString([]string{"-", "--", "!", ">", "->", "-->x", "--!", "<!--", "x", "&", "\x00", "\r", "&gt;", "!&gt;", "--&gt;", "--!&gt;"}[g.rng.IntN(16)])
 		}
 		if g.rng.IntN(4) != 0 {
 			sb.WriteString([]string{"-->", "--!>", "->", ">"}[g.rng.IntN(4)])
